@@ -1,5 +1,6 @@
 import CogentModel.Json
 import CogentModel.Model.Aln
+import CogentModel.Model.AlnView
 open CogentModel CogentModel.IndelMap CogentModel.Aln
 
 def errStr : Err → String
@@ -61,6 +62,30 @@ def handle (cmd : String) (j : J) : Except String J :=
     let d : AlnD := rows.map fun (n, s) => (n, s.toList)
     pure (J.obj [("aligned", J.arr (alnJ a :: runA dna a ops)), ("array", J.arr (denseJ d :: runD dna d ops)),
                  ("gapped", J.obj (a.map fun (n, r) => (n, J.str (String.ofList (gapped r)))))])
+  | "view_history" => do
+    -- the VIEW-level row model of `view_history_refines` (Model/AlnView.lean: IndelMap x C01 sequence view):
+    -- slices and reverse complements only; after every op each row's map and its SeqView record
+    let rows ← (← j.get "rows").toListOf (J.toPairOf J.toStr J.toStr)
+    let ops ← (← j.get "ops").toListOf parseOp
+    let dna := (← (← j.get "moltype").toStr) != "rna"
+    let rowVJ (n : String) (rv : RowV) : J :=
+      J.obj [("name", J.str n), ("gp", intsJ rv.map.gapPos), ("cum", intsJ rv.map.cumLens), ("pl", J.num rv.map.parentLength),
+             ("start", J.num rv.seq.v.start), ("stop", J.num rv.seq.v.stop), ("step", J.num rv.seq.v.step),
+             ("seq_len", J.num rv.seq.v.seqLen), ("parent", J.str (String.ofList rv.seq.parent)),
+             ("str", J.str (String.ofList (SeqWrap.str (comp dna) rv.seq)))]
+    let stepAll (a : List (String × RowV)) (f : RowV → Except Err RowV) : Except Err (List (String × RowV)) :=
+      a.mapM fun (n, rv) => (f rv).map (n, ·)
+    let rec go (a : List (String × RowV)) : List (Option AOp) → List J
+      | some (.slice x y) :: rest => match stepAll a (fun rv => rowSliceV rv x y) with
+        | .ok a' => J.arr (a'.map fun (n, rv) => rowVJ n rv) :: go a' rest
+        | .error e => [J.obj [("err", J.str (errStr e))]]
+      | some .rc :: rest => match stepAll a rowRcV with
+        | .ok a' => J.arr (a'.map fun (n, rv) => rowVJ n rv) :: go a' rest
+        | .error e => [J.obj [("err", J.str (errStr e))]]
+      | _ => []
+    let a0 : List (String × RowV) := rows.map fun (n, s) =>
+      (n, ⟨fromGapped (s.toList.map isGap), SeqWrap.ofString (s.toList.filter (! isGap ·)) true⟩)
+    pure (J.obj [("rows", J.arr (J.arr (a0.map fun (n, rv) => rowVJ n rv) :: go a0 ops))])
   | _ => throw s!"unknown command {cmd}"
 
 def main : IO Unit := driverLoop handle
